@@ -148,187 +148,5 @@ macro_rules | `(tactic| rb_lemmas) => `(tactic| exact rb_deriveAlg)
 theorem rb_opDeriveKey {c : Ctx} {e : Engine} {ot : Nat} {us : List String} {t : Option Template} {cr : Crypto}
     (hc : cryptoReq cr = true) : RB (opDeriveKey c e ot us t cr) := by unfold opDeriveKey; rb
 
-/-! ### reading attributes -/
-
-theorem rb_getAttr {o : Obj} {n : String} : RB (getAttr o n) := by
-  unfold getAttr
-  split
-  · rename_i f hf
-    simp only [getters, List.lookup] at hf
-    repeat' split at hf
-    all_goals first
-      | (simp only [Option.some.injEq] at hf; subst hf; rb)
-      | cases hf
-  · exact RB.pure _
-macro_rules | `(tactic| rb_lemmas) => `(tactic| exact rb_getAttr)
-
-theorem rb_getAttrsStep {c : Ctx} {v : Nat} {o : Obj} {n : String} : RB (getAttrsStep c v o n) := by
-  unfold getAttrsStep; rb
-
-theorem rb_getAttrs {c : Ctx} {v : Nat} {o : Obj} {ns : List String} : RB (getAttrs c v o ns) := by
-  unfold getAttrs
-  exact RB.bind (rb_mapM _ (fun _ => rb_getAttrsStep) _) (fun _ => RB.pure _)
-macro_rules | `(tactic| rb_lemmas) => `(tactic| exact rb_getAttrs)
-
-theorem rb_attrIndex {o : Obj} {n : String} {v : AVal} : RB (attrIndex o n v) := by
-  unfold attrIndex
-  split
-  · rename_i f hf
-    simp only [indexers, List.lookup] at hf
-    repeat' split at hf
-    all_goals first
-      | (simp only [Option.some.injEq] at hf; subst hf; rb)
-      | cases hf
-  · exact RB.pure _
-macro_rules | `(tactic| rb_lemmas) => `(tactic| exact rb_attrIndex)
-
-/-! ### Locate -/
-
-theorem rb_trackDate {t : DateTrack} {v : Int} : RB (trackDate t v) := by unfold trackDate; rb
-macro_rules | `(tactic| rb_lemmas) => `(tactic| exact rb_trackDate)
-theorem rb_passIf {t : DateTrack} {b : Bool} : RB (passIf t b) := RB.pure _
-macro_rules | `(tactic| rb_lemmas) => `(tactic| exact rb_passIf)
-theorem rb_compareFilter {o : Obj} {t : DateTrack} {a : TAttr} {g : Got} : RB (compareFilter o t a g) := by
-  unfold compareFilter; rb
-macro_rules | `(tactic| rb_lemmas) => `(tactic| exact rb_compareFilter)
-theorem rb_filterOne {c : Ctx} {o : Obj} {t : DateTrack} {a : TAttr} : RB (filterOne c o t a) := by
-  unfold filterOne; rb
-macro_rules | `(tactic| rb_lemmas) => `(tactic| exact rb_filterOne)
-theorem rb_filterObj {c : Ctx} {o : Obj} : ∀ (as : List TAttr) (t : DateTrack), RB (filterObj c o t as)
-  | [], t => by unfold filterObj; rb
-  | a :: as, t => by
-    have ih := fun t' => rb_filterObj (c := c) (o := o) as t'
-    unfold filterObj
-    refine RB.bind rb_filterOne (fun r => ?_)
-    split
-    · exact RB.pure _
-    · exact ih _
-theorem rb_matchesObj {c : Ctx} {o : Obj} {as : List TAttr} : RB (matchesObj c o as) := by
-  unfold matchesObj
-  refine RB.bind (rb_filterObj _ _) (fun r => ?_)
-  rb
-theorem rb_locateFilter {c : Ctx} {as : List TAttr} : ∀ (os : List Obj), RB (locateFilter c as os)
-  | [] => by unfold locateFilter; rb
-  | o :: os => by
-    have ih := rb_locateFilter (c := c) (as := as) os
-    unfold locateFilter
-    exact RB.bind rb_matchesObj (fun _ => RB.bind ih (fun _ => RB.pure _))
-theorem rb_opLocate {c : Ctx} {e : Engine} {m o : Option Int} {as : List TAttr} : RB (opLocate c e m o as) := by
-  unfold opLocate
-  refine RB.bind ?_ (fun _ => RB.pure _)
-  unfold locateMatched
-  split
-  · exact RB.pure _
-  · exact rb_locateFilter _
-
-/-! ### Get and the rest -/
-
-theorem rb_coreObject {o : Obj} {v : String} {w : Bool} {u : String} : RB (coreObject o v w u) := by
-  unfold coreObject; rb
-theorem rb_checkFormat {o : Obj} {f : Option Nat} : RB (checkFormat o f) := by unfold checkFormat; rb
-theorem rb_getWrapKey {c : Ctx} {e : Engine} {k : String} : RB (getWrapKey c e k) := by unfold getWrapKey; rb
-macro_rules | `(tactic| rb_lemmas) => `(tactic| exact rb_coreObject)
-macro_rules | `(tactic| rb_lemmas) => `(tactic| exact rb_checkFormat)
-macro_rules | `(tactic| rb_lemmas) => `(tactic| exact rb_getWrapKey)
-theorem rb_wrapGuards {c : Ctx} {e : Engine} {o : Obj} {w : WrapSpec} {cr : Crypto} (hc : cryptoReq cr = true) :
-    RB (wrapGuards c e o w cr) := by unfold wrapGuards; rb
-macro_rules | `(tactic| rb_lemmas) => `(tactic| (apply rb_wrapGuards; assumption))
-theorem rb_opGet {c : Ctx} {e : Engine} {u : Option String} {f : Option Nat} {cp : Bool} {w : Option WrapSpec}
-    {cr : Crypto} (hc : cryptoReq cr = true) : RB (opGet c e u f cp w cr) := by unfold opGet; rb
-theorem rb_opGetAttributes {c : Ctx} {e : Engine} {u : Option String} {ns : List String} :
-    RB (opGetAttributes c e u ns) := by unfold opGetAttributes; rb
-theorem rb_opGetAttributeList {c : Ctx} {e : Engine} {u : Option String} : RB (opGetAttributeList c e u) := by
-  unfold opGetAttributeList; rb
-theorem rb_opActivate {c : Ctx} {e : Engine} {u : Option String} : RB (opActivate c e u) := by unfold opActivate; rb
-theorem rb_opRevoke {c : Ctx} {e : Engine} {u : Option String} {k : Option Nat} : RB (opRevoke c e u k) := by
-  unfold opRevoke; rb
-theorem rb_opDestroy {c : Ctx} {e : Engine} {u : Option String} : RB (opDestroy c e u) := by unfold opDestroy; rb
-theorem rb_opQuery {e : Engine} {fs : List Nat} : RB (opQuery e fs) := by unfold opQuery; rb
-theorem rb_opDiscoverVersions {c : Ctx} {e : Engine} {vs : List Nat} : RB (opDiscoverVersions c e vs) := by
-  unfold opDiscoverVersions; rb
-theorem rb_cryptoGuard {c : Ctx} {e : Engine} {u : Option String} {p : Bool} {k b : Nat} :
-    RB (cryptoGuard c e u p k b) := by unfold cryptoGuard; rb
-macro_rules | `(tactic| rb_lemmas) => `(tactic| exact rb_cryptoGuard)
-theorem rb_opEncrypt {c : Ctx} {e : Engine} {u : Option String} {p : Bool} {cr : Crypto} (hc : cryptoReq cr = true) :
-    RB (opEncrypt c e u p cr) := by unfold opEncrypt; rb
-theorem rb_opDecrypt {c : Ctx} {e : Engine} {u : Option String} {p : Bool} {cr : Crypto} (hc : cryptoReq cr = true) :
-    RB (opDecrypt c e u p cr) := by unfold opDecrypt; rb
-theorem rb_opSign {c : Ctx} {e : Engine} {u : Option String} {p : Bool} {cr : Crypto} (hc : cryptoReq cr = true) :
-    RB (opSign c e u p cr) := by unfold opSign; rb
-theorem rb_opSignatureVerify {c : Ctx} {e : Engine} {u : Option String} {p : Bool} {cr : Crypto}
-    (hc : cryptoReq cr = true) : RB (opSignatureVerify c e u p cr) := by unfold opSignatureVerify; rb
-theorem rb_opMac {c : Ctx} {e : Engine} {u : Option String} {a : Option Nat} {d : Bool} {cr : Crypto}
-    (hc : cryptoReq cr = true) : RB (opMac c e u a d cr) := by unfold opMac; rb
-
-/-! ### attribute operations -/
-
-theorem rb_setByIndex {o : Obj} {n : String} {v : AVal} {i : Nat} : RB (setByIndex o n v i) := by unfold setByIndex; rb
-theorem rb_popAt {α : Type} {l : List α} {i : Int} : RB (popAt l i) := by unfold popAt; rb
-macro_rules | `(tactic| rb_lemmas) => `(tactic| exact rb_setByIndex)
-macro_rules | `(tactic| rb_lemmas) => `(tactic| exact rb_popAt)
-theorem rb_delGeneric {α : Type} [BEq α] {l : List α} {v : Option α} {t : Bool} {i : Option Int} :
-    RB (delGeneric l v t i) := by unfold delGeneric; rb
-macro_rules | `(tactic| rb_lemmas) => `(tactic| exact rb_delGeneric)
-theorem rb_delAttr {c : Ctx} {o : Obj} {n : String} {i : Option Int} {v : Option AVal} : RB (delAttr c o n i v) := by
-  unfold delAttr; rb
-macro_rules | `(tactic| rb_lemmas) => `(tactic| exact rb_delAttr)
-theorem rb_opSetAttribute {c : Ctx} {e : Engine} {u : Option String} {a : TAttr} : RB (opSetAttribute c e u a) := by
-  unfold opSetAttribute; rb
-theorem rb_gotLength {g : Option Got} : RB (gotLength g) := by unfold gotLength; rb
-theorem rb_nthAttr {as : List TAttr} {i : Nat} {s : String} : RB (nthAttr as i s) := by unfold nthAttr; rb
-theorem rb_checkCurrent {o : Obj} {n : String} {cu : Option TAttr} : RB (checkCurrent o n cu) := by
-  unfold checkCurrent; rb
-  all_goals (rename_i heq; first | exact RB.of_error rb_getAttr heq | exact RB.of_error rb_attrIndex heq)
-theorem rb_currentIndex {o : Obj} {n : String} {cu : Option TAttr} : RB (currentIndex o n cu) := by
-  unfold currentIndex; rb
-  all_goals (rename_i heq; first | exact RB.of_error rb_getAttr heq | exact RB.of_error rb_attrIndex heq)
-macro_rules | `(tactic| rb_lemmas) => `(tactic| exact rb_gotLength)
-macro_rules | `(tactic| rb_lemmas) => `(tactic| exact rb_nthAttr)
-macro_rules | `(tactic| rb_lemmas) => `(tactic| exact rb_checkCurrent)
-macro_rules | `(tactic| rb_lemmas) => `(tactic| exact rb_currentIndex)
-theorem rb_modifyCore {c : Ctx} {v : Nat} {o : Obj} {a cu nw : Option TAttr} : RB (modifyCore c v o a cu nw) := by
-  unfold modifyCore; rb
-macro_rules | `(tactic| rb_lemmas) => `(tactic| exact rb_modifyCore)
-theorem rb_opModifyAttribute {c : Ctx} {e : Engine} {u : Option String} {a cu nw : Option TAttr} :
-    RB (opModifyAttribute c e u a cu nw) := by unfold opModifyAttribute; rb
-theorem rb_deletedAttr {ex : List TAttr} {i : Int} : RB (deletedAttr ex i) := by unfold deletedAttr; rb
-macro_rules | `(tactic| rb_lemmas) => `(tactic| exact rb_deletedAttr)
-theorem rb_deleteCore {c : Ctx} {v : Nat} {o : Obj} {n : Option String} {i : Option Int} {cu : Option TAttr}
-    {r : Option String} : RB (deleteCore c v o n i cu r) := by unfold deleteCore; rb
-macro_rules | `(tactic| rb_lemmas) => `(tactic| exact rb_deleteCore)
-theorem rb_opDeleteAttribute {c : Ctx} {e : Engine} {u : Option String} {n : Option String} {i : Option Int}
-    {cu : Option TAttr} {r : Option String} : RB (opDeleteAttribute c e u n i cu r) := by unfold opDeleteAttribute; rb
-
-/-- **Every KMIP error of an item carries a reason that fits an Enumeration.** -/
-theorem processOperation_reason {c : Ctx} {e : Engine} {it : Kmip.Item} (hc : cryptoReq it.crypto = true) :
-    RB (processOperation c e it) := by
-  unfold processOperation
-  split
-  · exact RB.kerr _ _ (by decide)
-  · split
-    · exact RB.kerr _ _ (by decide)
-    · split
-      · exact rb_opCreate hc
-      · exact rb_opCreateKeyPair hc
-      · exact rb_opRegister
-      · exact rb_opDeriveKey hc
-      · exact rb_opLocate
-      · exact rb_opGet hc
-      · exact rb_opGetAttributes
-      · exact rb_opGetAttributeList
-      · exact rb_opActivate
-      · exact rb_opRevoke
-      · exact rb_opDestroy
-      · exact rb_opQuery
-      · exact rb_opDiscoverVersions
-      · exact rb_opEncrypt hc
-      · exact rb_opDecrypt hc
-      · exact rb_opSign hc
-      · exact rb_opSignatureVerify hc
-      · exact rb_opMac hc
-      · exact rb_opSetAttribute
-      · exact rb_opModifyAttribute
-      · exact rb_opDeleteAttribute
-      · exact RB.kerr _ _ (by decide)
 
 end Kmip.Encode
